@@ -3,114 +3,344 @@
 `Model/Collection.lean` mirrors by hand:
 
   * add_impl / update_impl / remove_impl: the order of the three index families, whether an index is
-    recorded in the rollback set before or after its insert, that the rollback closures mention every
-    recorded set, that the document object is written after the index phase and the id bitmap after it;
+    recorded in the rollback set before or after its insert, that the rollback closures undo every
+    recorded set and run on every failure exit, that the document object is written after the index
+    phase and the id bitmap after it;
   * BTree::update (wrapper) = insert(new) then remove(old); BTreeIndex::batch_update = insert_array
     then remove_array; insert_array pre-checks uniqueness before its first mutation;
   * create_btree_index: backfill before registration, unique / multi-field indexes at position 0.
 
-Strict about meaning (a marker that disappears or is ambiguous is an error), tolerant about layout."""
+Strict about meaning (a missing or ambiguous anchor is an error, never a default), tolerant about
+spelling: anchors are WHAT IS CALLED (`index_hooks.btree_index_value(`, `.insert(` / `.remove(` /
+`.update(` with their arity, `storage.create(`, `self.doc_ids_index`, `fetch_add(`, …), their nesting
+(inside which index family, inside the rollback closure) and their first-occurrence order — never the
+names of locals, closures, loop variables or temporaries. Private helper functions that a refactoring
+extracted are looked through (their body is scanned at the call site); the private functions that
+exist today and carry a meaning of their own (`record_mutation_intent`, `poison`, …) and every `pub`
+function stay opaque calls."""
 import re, sys
 from common import *
 
 repo, gen = sys.argv[1], sys.argv[2]
-csrc = strip_rust_comments(read_source(repo, "rs/anda_db/src/collection.rs"))
-wsrc = strip_rust_comments(read_source(repo, "rs/anda_db/src/index/btree.rs"))
-bsrc = strip_rust_comments(read_source(repo, "rs/anda_db_btree/src/btree.rs"))
+csrc = cut_tests(strip_rust_comments(read_source(repo, "rs/anda_db/src/collection.rs")))
+wsrc = cut_tests(strip_rust_comments(read_source(repo, "rs/anda_db/src/index/btree.rs")))
+bsrc = cut_tests(strip_rust_comments(read_source(repo, "rs/anda_db_btree/src/btree.rs")))
 
 
-def pos(body, pat, what, which=0):
-    ms = [m.start() for m in re.finditer(pat, body)]
-    if len(ms) <= which:
-        die(f"c02_order: marker `{pat}` ({what}) not found")
-    return ms[which]
+def fail(msg):
+    die("c02_order: " + msg)
 
 
-def families(body, fn):
-    ps = {"bt": pos(body, r"in\s+&self\s*\.\s*btree_indexes", fn + " btree loop"),
-          "tx": pos(body, r"in\s+&self\s*\.\s*bm25_indexes", fn + " bm25 loop"),
-          "hn": pos(body, r"in\s+&self\s*\.\s*hnsw_indexes", fn + " hnsw loop")}
-    return [k for k, _ in sorted(ps.items(), key=lambda kv: kv[1])]
+# ------------------------------------------------------------------------------------------------
+# text helpers
+# ------------------------------------------------------------------------------------------------
+OPEN, CLOSE = "([{", ")]}"
 
 
-def closure_body(body, name, fn):
-    m = re.search(r"let\s+" + name + r"\s*=\s*\|\|\s*\{", body)
-    if not m:
-        die(f"c02_order: closure `{name}` not found in {fn}")
-    i = m.end() - 1
-    depth, j = 0, i
-    while j < len(body):
-        if body[j] == "{":
+def close_of(text, i):
+    """index just after the bracket that closes the one opened just BEFORE position i"""
+    depth = 1
+    while i < len(text) and depth:
+        if text[i] in OPEN:
             depth += 1
-        elif body[j] == "}":
+        elif text[i] in CLOSE:
             depth -= 1
-            if depth == 0:
-                return body[i + 1:j]
-        j += 1
-    die(f"c02_order: unbalanced closure `{name}` in {fn}")
+        i += 1
+    return i
+
+
+def split_args(text, i):
+    """text[i-1] == '(' : returns (list of top-level arguments, index just after the closing paren)"""
+    end = close_of(text, i)
+    inner, args, depth, cur = text[i:end - 1], [], 0, []
+    for ch in inner:
+        if ch in OPEN:
+            depth += 1
+        elif ch in CLOSE:
+            depth -= 1
+        if ch == "," and depth == 0:
+            args.append("".join(cur).strip()); cur = []
+        else:
+            cur.append(ch)
+    last = "".join(cur).strip()
+    if last:
+        args.append(last)
+    return args, end
+
+
+def method_calls(text, method):
+    """all `.method(` calls in text: (position, arguments, is followed by `?`)"""
+    out = []
+    for m in re.finditer(r"\.\s*" + method + r"\s*\(", text):
+        args, end = split_args(text, m.end())
+        out.append((m.start(), args, text[end:end + 12].lstrip().startswith("?")))
+    return out
+
+
+def first_call(text, method, arity, what):
+    ps = [p for p, a, _ in method_calls(text, method) if len(a) == arity]
+    if not ps:
+        fail(f"no `.{method}(` call with {arity} arguments in {what}")
+    return ps[0]
+
+
+def bare(arg):
+    return re.sub(r"\s+", "", arg).lstrip("&")
+
+
+def pos(text, pat, what):
+    m = re.search(pat, text)
+    if not m:
+        fail(f"marker `{pat}` ({what}) not found")
+    return m.start()
+
+
+def last_pos(text, pat, what):
+    ms = [m.start() for m in re.finditer(pat, text)]
+    if not ms:
+        fail(f"marker `{pat}` ({what}) not found")
+    return ms[-1]
+
+
+CALL = re.compile(r"(?:\bself\s*\.\s*|\bSelf::\s*|(?<![\w.:]))([A-Za-z_][A-Za-z0-9_]*)\s*(?:::<[^>()]*>)?\(")
+
+
+def expander(src, opaque):
+    """expand(fn): body of fn in which every call of a PRIVATE function defined exactly once in the same
+    file and not listed as opaque is followed by `{ <its expanded body> }` — a marker scan sees the same
+    effects in the same order whether or not a block lives in a helper. Closures with parameters
+    (`let touches = |x| …;`) are looked through the same way."""
+    pub = set(re.findall(r"\bpub(?:\([^)]*\))?\s+(?:async\s+|const\s+|unsafe\s+)*fn\s+(\w+)", src))
+    once = {n for n in all_fn_names(src) if len(re.findall(r"\bfn\s+" + n + r"\b", src)) == 1}
+    through = once - pub - set(opaque)
+
+    def closures_through(body):
+        for m in list(re.finditer(r"\blet\s+(\w+)\s*=\s*(?:move\s+)?\|([^|]+)\|\s*", body)):
+            name, j = m.group(1), m.end()
+            if body[j] == "{":
+                cbody = body[j:close_of(body, j + 1)]
+            else:
+                k, depth = j, 0
+                while k < len(body) and not (body[k] == ";" and depth == 0):
+                    depth += (body[k] in OPEN) - (body[k] in CLOSE)
+                    k += 1
+                cbody = "{ " + body[j:k] + " }"
+            out, i = [], 0
+            for c in re.finditer(r"(?<![\w.:|])" + name + r"\s*\(", body):
+                if c.start() < m.end() or c.start() < i:
+                    continue
+                e = close_of(body, c.end())
+                out.append(body[i:e] + " " + cbody + " ")
+                i = e
+            out.append(body[i:])
+            body = "".join(out)
+        return body
+
+    def expand(name, stack=()):
+        body = try_fn_body(src, name)
+        if body is None:
+            fail(f"fn {name} not found")
+        out, i = [], 0
+        while len(stack) < 6:
+            m = CALL.search(body, i)
+            if not m:
+                break
+            callee = m.group(1)
+            if callee not in through or callee == name or callee in stack or re.search(r"\bfn\s*$", body[:m.start()]):
+                out.append(body[i:m.end()]); i = m.end(); continue
+            e = close_of(body, m.end())
+            out.append(body[i:e] + " { " + expand(callee, stack + (name,)) + " } ")
+            i = e
+        out.append(body[i:])
+        return closures_through("".join(out))
+
+    return expand
+
+
+cexp = expander(csrc, ["ensure_allocation_watermark", "doc_path", "poison", "update_metadata", "doc_lock",
+                       "record_mutation_intent", "purge_dead_ids_from_indexes", "ensure_mutable",
+                       "backfill_btree_index", "for_each_existing_document"])
+wexp = expander(wsrc, ["insert", "remove", "update", "batch_update", "insert_array", "remove_array",
+                       "values_equal", "convert_array_values", "name"])
+bexp = expander(bsrc, ["try_cbor_serialized_size", "json_value", "try_posting_entry_size", "mark_bucket_dirty",
+                       "posting_entry_size", "previous_posting_size_after_append", "update_metadata"])
+
+HOOK = {"bt": r"\bbtree_index_value\s*\(", "tx": r"\bbm25_index_value\s*\(", "hn": r"\bhnsw_index_value\s*\("}
+LIST = {"bt": r"\bself\s*\.\s*btree_indexes\b", "tx": r"\bself\s*\.\s*bm25_indexes\b", "hn": r"\bself\s*\.\s*hnsw_indexes\b"}
+
+
+def rollback_closure(body, fn, must_call):
+    """the zero-argument closure `let <any name> = || { … }` of fn whose body calls `.must_call(`:
+    (name, closure body, start of the `let`, index just after the closing brace)"""
+    found = []
+    for m in re.finditer(r"\blet\s+(\w+)\s*=\s*(?:move\s+)?\|\s*\|\s*\{", body):
+        e = close_of(body, m.end())
+        cb = body[m.end():e - 1]
+        if method_calls(cb, must_call):
+            found.append((m.group(1), cb, m.start(), e))
+    if len(found) != 1:
+        fail(f"expected exactly one rollback closure (`let … = || {{ … .{must_call}( … }}`) in {fn}, found {len(found)}")
+    return found[0]
+
+
+def phase(body, fn, closure_span=None):
+    """body with the rollback closure blanked; family order (by first index-hook call) and the text
+    segment of each family (from its `self.<family>_indexes` walk to the next family / end of phase)"""
+    text = body
+    if closure_span:
+        s, e = closure_span
+        text = body[:s] + " " * (e - s) + body[e:]
+    hook = {k: pos(text, p, f"{fn}: index hook of family {k}") for k, p in HOOK.items()}
+    order = sorted(hook, key=lambda k: hook[k])
+    start, prev_hook = {}, 0
+    for k in order:
+        walks = [m.start() for m in re.finditer(LIST[k], text) if prev_hook <= m.start() < hook[k]]
+        if not walks:
+            fail(f"{fn}: no walk over `self.{'btree' if k == 'bt' else 'bm25' if k == 'tx' else 'hnsw'}_indexes` before its hook call")
+        start[k] = walks[-1]
+        prev_hook = hook[k]
+    end_all = closure_span[0] if closure_span and closure_span[0] > hook[order[-1]] else len(text)
+    seg = {}
+    for n, k in enumerate(order):
+        seg[k] = text[start[k]:(start[order[n + 1]] if n + 1 < len(order) else end_all)]
+    return text, order, hook, seg, end_all
 
 
 def fam_num(f):
     return {"bt": 0, "tx": 1, "hn": 2}[f]
 
 
-add = fn_body(csrc, "add_impl")
-upd = fn_body(csrc, "update_impl")
-rem = fn_body(csrc, "remove_impl")
+def no_exit_between(text, a, b_):
+    return not re.search(r"\breturn\b|\?", text[a:b_])
 
-add_fams, upd_fams, rem_fams = families(add, "add_impl"), families(upd, "update_impl"), families(rem, "remove_impl")
 
-# add_impl bookkeeping
-add_bt_rec_first = pos(add, r"btree_inserted\s*\.\s*insert\(", "add btree record") < pos(add, r"index\s*\.\s*insert\(\s*id\s*,\s*&fv", "add btree insert")
-add_tx_rec_after = pos(add, r"index\s*\.\s*insert\(\s*id\s*,\s*&text", "add bm25 insert") < pos(add, r"bm25_inserted\s*\.\s*insert\(", "add bm25 record")
-add_hn_rec_first = pos(add, r"hnsw_inserted\s*\.\s*insert\(", "add hnsw record") < pos(add, r"index\s*\.\s*insert\(\s*id\s*,\s*vector", "add hnsw insert")
-add_rb = closure_body(add, "rollback_indexes", "add_impl")
-add_rb_all = all(re.search(r"\b" + s + r"\b", add_rb) for s in ["btree_inserted", "bm25_inserted", "hnsw_inserted"])
-add_rb_removes = len(re.findall(r"\.\s*remove\(", add_rb)) == 3
-add_doc_after_index = pos(add, r"in\s+&self\s*\.\s*hnsw_indexes", "add hnsw loop") < pos(add, r"self\s*\.\s*storage\s*\.\s*create\(", "add storage.create")
-add_ids_after_doc = pos(add, r"self\s*\.\s*storage\s*\.\s*create\(", "add storage.create") < pos(add, r"self\s*\.\s*doc_ids\s*\.\s*write\(\)\s*\.\s*add\(", "add bitmap")
-add_validate_before_alloc = pos(add, r"self\s*\.\s*schema\s*\.\s*validate\(", "add validate") < pos(add, r"max_document_id\s*\.\s*fetch_add\(", "add id allocation")
-# rollback is invoked on both failure paths (index phase, storage create)
-add_rb_calls = len(re.findall(r"rollback_indexes\(\)", add)) >= 2
+# ------------------------------------------------------------------------------------------------
+# add_impl
+# ------------------------------------------------------------------------------------------------
+add = cexp("add_impl")
+a_name, a_rb, a_s, a_e = rollback_closure(add, "add_impl", "remove")
+a_text, add_fams, a_hook, a_seg, a_end = phase(add, "add_impl", (a_s, a_e))
+# record = the 2-argument `.insert(index, value)` on a rollback map; index insert = the 3-argument one
+add_bt_rec_first = first_call(a_seg["bt"], "insert", 2, "add_impl B-tree family (record)") < first_call(a_seg["bt"], "insert", 3, "add_impl B-tree family (index insert)")
+add_tx_rec_after = first_call(a_seg["tx"], "insert", 3, "add_impl BM25 family (index insert)") < first_call(a_seg["tx"], "insert", 2, "add_impl BM25 family (record)")
+add_hn_rec_first = first_call(a_seg["hn"], "insert", 2, "add_impl HNSW family (record)") < first_call(a_seg["hn"], "insert", 3, "add_impl HNSW family (index insert)")
+# the rollback closure removes from two value-keyed families (3 arguments) and from HNSW (2 arguments)
+add_rb_all = sorted(len(a) for _, a, _ in method_calls(a_rb, "remove")) == [2, 3, 3]
+a_calls = [m.start() for m in re.finditer(r"(?<![\w.])" + a_name + r"\s*\(\s*\)", a_text)]
+add_rb_calls = len(a_calls) >= 2 and no_exit_between(a_text, a_e, a_calls[0])
+a_create = pos(a_text, r"\bstorage\s*\.\s*create\s*\(", "add_impl storage.create")
+add_doc_after_index = a_hook[add_fams[-1]] < a_create
+add_ids_after_doc = a_create < pos(a_text, r"\bself\s*\.\s*doc_ids\s*\.\s*write\s*\(", "add_impl id bitmap")
+add_validate_before_alloc = pos(a_text, r"\.\s*validate\s*\(", "add_impl validate") < pos(a_text, r"\bmax_document_id\s*\.\s*fetch_add\s*\(", "add_impl id allocation")
 
-# update_impl bookkeeping
-upd_bt_rec_after = pos(upd, r"index\s*\.\s*update\(\s*id\s*,\s*&old_value\s*,\s*&new_value", "update btree update") < pos(upd, r"btree_updated\s*\.\s*insert\(", "update btree record")
-upd_tx_remove_first = pos(upd, r"index\s*\.\s*remove\(\s*id\s*,\s*&text", "update bm25 remove") < pos(upd, r"index\s*\.\s*insert\(\s*id\s*,\s*&text", "update bm25 insert")
-upd_only_touched = bool(re.search(r"fields_keys\s*\.\s*iter\(\)\s*\.\s*any\(\s*\|v\|\s*fields\s*\.\s*contains\(v\)\s*\)", upd)) and bool(re.search(r"fields_keys\s*\.\s*contains\(\s*field_name\s*\)", upd))
-upd_rb = closure_body(upd, "rollback_indexes", "update_impl")
-upd_rb_all = all(re.search(r"\b" + s + r"\b", upd_rb) for s in ["btree_updated", "bm25_inserted", "bm25_removed", "hnsw_inserted", "hnsw_removed"])
-upd_rb_swaps = bool(re.search(r"k\s*\.\s*update\(\s*id\s*,\s*&v\s*\.\s*1\s*,\s*&v\s*\.\s*0", upd_rb))
-upd_rb_remove_new_before_reinsert = pos(upd_rb, r"bm25_inserted", "rollback bm25_inserted") < pos(upd_rb, r"bm25_removed", "rollback bm25_removed") and pos(upd_rb, r"hnsw_inserted", "rollback hnsw_inserted") < pos(upd_rb, r"hnsw_removed", "rollback hnsw_removed")
-upd_poison_on_failed_restore = bool(re.search(r"if\s*!\s*rollback_indexes\(\)\s*\{[^}]*self\s*\.\s*poison\(", upd, re.S))
-upd_doc_after_index = pos(upd, r"in\s+&self\s*\.\s*hnsw_indexes", "update hnsw loop") < pos(upd, r"self\s*\.\s*storage\s*\.\s*put\(", "update storage.put")
-upd_validate_before_index = pos(upd, r"self\s*\.\s*schema\s*\.\s*validate\(", "update validate") < pos(upd, r"in\s+&self\s*\.\s*btree_indexes", "update btree loop")
+# ------------------------------------------------------------------------------------------------
+# update_impl
+# ------------------------------------------------------------------------------------------------
+upd = cexp("update_impl")
+u_name, u_rb, u_s, u_e = rollback_closure(upd, "update_impl", "update")
+u_text, upd_fams, u_hook, u_seg, u_end = phase(upd, "update_impl", (u_s, u_e))
+u_fwd = [c for c in method_calls(u_seg["bt"], "update") if len(c[1]) == 4]
+if not u_fwd:
+    fail("no 4-argument `.update(` call in the B-tree family of update_impl")
+u_rec = [c for c in method_calls(u_seg["bt"], "insert") if len(c[1]) == 2]
+if not u_rec:
+    fail("no 2-argument `.insert(` (rollback record) in the B-tree family of update_impl")
+upd_bt_rec_after = u_fwd[0][0] < u_rec[0][0]
+upd_tx_remove_first = first_call(u_seg["tx"], "remove", 3, "update_impl BM25 family (remove old)") < first_call(u_seg["tx"], "insert", 3, "update_impl BM25 family (insert new)")
+# only touched indexes: each family consults the index's field list and the set of updated fields before
+# its first index call
+upd_only_touched = all(
+    (lambda s, stop: bool(re.search(acc, s[:stop])) and bool(re.search(r"\.\s*contains\s*\(", s[:stop])))(
+        u_seg[k], first_call(u_seg[k], meth, ar, f"update_impl family {k}"))
+    for k, acc, meth, ar in [("bt", r"\.\s*virtual_field\s*\(\s*\)", "update", 4), ("tx", r"\.\s*virtual_field\s*\(\s*\)", "remove", 3),
+                             ("hn", r"\.\s*field_name\s*\(\s*\)", "remove", 2)])
+upd_rb_all = (len([c for c in method_calls(u_rb, "update") if len(c[1]) == 4]) == 1
+              and sorted(len(a) for _, a, _ in method_calls(u_rb, "remove")) == [2, 3]
+              and sorted(len(a) for _, a, _ in method_calls(u_rb, "insert")) == [3, 3])
+# the record is the pair (from, to) of the forward `update(id, from, to, …)`; the rollback calls
+# `update(id, pair.1, pair.0, …)` whatever the pair's components are called
+rec_pair = re.fullmatch(r"\(\s*([\w.]+)\s*,\s*([\w.]+)\s*\)", u_rec[0][1][1])
+if not rec_pair:
+    fail("the B-tree rollback record of update_impl is not a pair `(from, to)`")
+fwd_consistent = (bare(u_fwd[0][1][1]), bare(u_fwd[0][1][2])) == (rec_pair.group(1), rec_pair.group(2))
+rb_upd = [c for c in method_calls(u_rb, "update") if len(c[1]) == 4]
+if not rb_upd:
+    fail("no 4-argument `.update(` call in the rollback closure of update_impl")
+binds = [m for m in re.finditer(r"(?:\bfor\s*|\|\s*)\(\s*\w+\s*,\s*(\w+|\(\s*\w+\s*,\s*\w+\s*\))\s*\)\s*(?:in\b|\|)", u_rb) if m.start() < rb_upd[0][0]]
+if not binds:
+    fail("cannot find the `(index, pair)` binding of the B-tree restore loop in the rollback closure of update_impl")
+pat_ = re.sub(r"\s+", "", binds[-1].group(1))
+r2_, r3_ = bare(rb_upd[0][1][1]), bare(rb_upd[0][1][2])
+if pat_.startswith("("):
+    x_, y_ = pat_[1:-1].split(",")
+    upd_rb_swaps = fwd_consistent and (r2_, r3_) == (y_, x_)
+else:
+    upd_rb_swaps = fwd_consistent and (r2_, r3_) == (pat_ + ".1", pat_ + ".0")
+rb_removes = [p for p, _, _ in method_calls(u_rb, "remove")]
+rb_inserts = [p for p, _, _ in method_calls(u_rb, "insert")]
+upd_rb_remove_new_before_reinsert = bool(rb_removes) and bool(rb_inserts) and max(rb_removes) < min(rb_inserts)
+u_calls = [m.start() for m in re.finditer(r"(?<![\w.])" + u_name + r"\s*\(\s*\)", u_text)]
+if len(u_calls) < 2:
+    fail("the rollback closure of update_impl is invoked on fewer than two failure paths")
+upd_poison_on_failed_restore = bool(re.search(r"\bpoison\s*\(", u_text[u_calls[0]:u_calls[1]]))
+upd_rb_unconditional = no_exit_between(u_text, u_e, u_calls[0])
+upd_doc_after_index = any(m.start() > u_hook[upd_fams[-1]] for m in re.finditer(r"\bstorage\s*\.\s*put\s*\(", u_text)) and \
+    not re.search(r"\bstorage\s*\.\s*put\s*\(", u_text[u_hook[upd_fams[0]]:u_end])
+upd_validate_before_index = pos(u_text, r"\.\s*validate\s*\(", "update_impl validate") < u_hook[upd_fams[0]]
 
+# ------------------------------------------------------------------------------------------------
 # remove_impl
-rem_index_before_delete = pos(rem, r"in\s+&self\s*\.\s*hnsw_indexes", "remove hnsw loop") < pos(rem, r"self\s*\.\s*storage\s*\.\s*delete\(", "remove storage.delete")
-rem_delete_before_bitmap = pos(rem, r"self\s*\.\s*storage\s*\.\s*delete\(", "remove storage.delete") < pos(rem, r"doc_ids_index\s*\.\s*remove\(", "remove bitmap")
+# ------------------------------------------------------------------------------------------------
+rem = cexp("remove_impl")
+r_text, rem_fams, r_hook, r_seg, _ = phase(rem, "remove_impl")
+r_delete = pos(r_text, r"\bstorage\s*\.\s*delete\s*\(", "remove_impl storage.delete")
+rem_index_before_delete = r_hook[rem_fams[-1]] < r_delete
+rem_delete_before_bitmap = r_delete < pos(r_text, r"\bself\s*\.\s*doc_ids_index\b", "remove_impl id bitmap")
 
-# wrapper BTree::update: insert(new) then remove(old)
-wupd = fn_body(wsrc, "update")
-w_insert_first = pos(wupd, r"let\s+rt1\s*=\s*self\s*\.\s*insert\(\s*doc_id\s*,\s*new_value", "BTree::update insert(new)") < pos(wupd, r"let\s+rt2\s*=\s*self\s*\.\s*remove\(\s*doc_id\s*,\s*old_value", "BTree::update remove(old)")
-w_equal_noop = pos(wupd, r"self\s*\.\s*values_equal\(", "BTree::update values_equal") < pos(wupd, r"self\s*\.\s*insert\(", "BTree::update first insert")
+# ------------------------------------------------------------------------------------------------
+# wrapper BTree::update: values_equal short-circuit first; scalar transition = insert(new)? then remove(old)
+# ------------------------------------------------------------------------------------------------
+wupd = wexp("update")
+w_insert_first = last_pos(wupd, r"\bself\s*\.\s*insert\s*\(", "BTree::update insert(new)") < last_pos(wupd, r"\bself\s*\.\s*remove\s*\(", "BTree::update remove(old)")
+w_equal_noop = pos(wupd, r"\bself\s*\.\s*values_equal\s*\(", "BTree::update values_equal") < pos(wupd, r"\bself\s*\.\s*insert\s*\(", "BTree::update first insert")
 # BTreeIndex::batch_update: insert_array then remove_array
-bupd = fn_body(bsrc, "batch_update")
-b_insert_first = pos(bupd, r"self\s*\.\s*insert_array\(", "batch_update insert_array") < pos(bupd, r"self\s*\.\s*remove_array\(", "batch_update remove_array")
+bupd = bexp("batch_update")
+b_insert_first = pos(bupd, r"\bself\s*\.\s*insert_array\s*\(", "batch_update insert_array") < pos(bupd, r"\bself\s*\.\s*remove_array\s*\(", "batch_update remove_array")
 # BTreeIndex::insert_array: uniqueness pre-check before the first mutation, re-check inside the entry
-iarr = fn_body(bsrc, "insert_array")
-ia_precheck = pos(iarr, r"BTreeError::AlreadyExists", "insert_array pre-check") < pos(iarr, r"self\s*\.\s*postings\s*\.\s*entry\(", "insert_array entry")
+iarr = bexp("insert_array")
+ia_precheck = pos(iarr, r"BTreeError::AlreadyExists", "insert_array pre-check") < pos(iarr, r"\bpostings\s*\.\s*entry\s*\(", "insert_array entry")
 ia_recheck = len(re.findall(r"BTreeError::AlreadyExists", iarr)) >= 2
-ins = fn_body(bsrc, "insert")
-i_check_in_entry = pos(ins, r"self\s*\.\s*postings\s*\.\s*entry\(", "insert entry") < pos(ins, r"BTreeError::AlreadyExists", "insert uniqueness check")
+ins = bexp("insert")
+i_check_in_entry = pos(ins, r"\bpostings\s*\.\s*entry\s*\(", "insert entry") < pos(ins, r"BTreeError::AlreadyExists", "insert uniqueness check")
 
+# ------------------------------------------------------------------------------------------------
 # create_btree_index: backfill before registration; unique at the front
-cbi = fn_body(csrc, "create_btree_index")
-c_backfill_first = pos(cbi, r"self\s*\.\s*backfill_btree_index\(", "create_btree_index backfill") < pos(cbi, r"self\s*\.\s*btree_indexes\s*\.\s*(insert|push)\(", "create_btree_index registration")
-c_both_backfill = len(re.findall(r"self\s*\.\s*backfill_btree_index\(", cbi)) == 2
-c_unique_front = bool(re.search(r"if\s+field\s*\.\s*unique\(\)\s*\{\s*self\s*\.\s*btree_indexes\s*\.\s*insert\(\s*0\s*,\s*index\s*\)\s*;?\s*\}\s*else\s*\{\s*self\s*\.\s*btree_indexes\s*\.\s*push\(\s*index\s*\)", cbi))
-c_multi_front = len(re.findall(r"self\s*\.\s*btree_indexes\s*\.\s*insert\(\s*0\s*,\s*index\s*\)", cbi)) == 2
+# ------------------------------------------------------------------------------------------------
+cbi = cexp("create_btree_index")
+REG = r"\bself\s*\.\s*btree_indexes\s*\.\s*(?:insert|push)\s*\("
+c_backfill_first = pos(cbi, r"\bbackfill_btree_index\s*\(", "create_btree_index backfill") < pos(cbi, REG, "create_btree_index registration")
+c_both_backfill = len(re.findall(r"\bbackfill_btree_index\s*\(", cbi)) == 2
+FRONT, BACK = r"\bbtree_indexes\s*\.\s*insert\s*\(\s*0\s*,", r"\bbtree_indexes\s*\.\s*push\s*\("
+c_unique_front = False
+for m in re.finditer(r"\bif\s+(!?)\s*[\w.]+\s*\.\s*unique\s*\(\s*\)\s*\{", cbi):
+    e1 = close_of(cbi, m.end())
+    m2 = re.match(r"\s*else\s*\{", cbi[e1:])
+    if not m2:
+        continue
+    then_, else_ = cbi[m.end():e1 - 1], cbi[e1 + m2.end():close_of(cbi, e1 + m2.end()) - 1]
+    yes, no = (else_, then_) if m.group(1) else (then_, else_)
+    if re.search(FRONT, yes) and not re.search(BACK, yes) and re.search(BACK, no) and not re.search(FRONT, no):
+        c_unique_front = True
+for m in re.finditer(r"\bmatch\s+[\w.]+\s*\.\s*unique\s*\(\s*\)\s*\{", cbi):
+    arms = cbi[m.end():close_of(cbi, m.end()) - 1]
+    t, f = re.search(r"\btrue\s*=>", arms), re.search(r"\bfalse\s*=>", arms)
+    if t and f:
+        yes, no = (arms[t.end():f.start()], arms[f.end():]) if t.start() < f.start() else (arms[t.end():], arms[f.end():t.start()])
+        if re.search(FRONT, yes) and not re.search(BACK, yes) and re.search(BACK, no) and not re.search(FRONT, no):
+            c_unique_front = True
+c_multi_front = len(re.findall(r"\bself\s*\.\s*" + FRONT[2:], cbi)) == 2
 wvf = fn_body(wsrc, "with_virtual_field")
-c_multi_unique = bool(re.search(r"allow_duplicates\s*:\s*false", wvf))
+c_multi_unique = bool(re.search(r"\ballow_duplicates\s*:\s*false\b", wvf))
 
 
 def b(x):
@@ -138,8 +368,8 @@ def addBtRecordedFirst : Bool := {b(add_bt_rec_first)}
 def addTxRecordedAfter : Bool := {b(add_tx_rec_after)}
 def addHnRecordedFirst : Bool := {b(add_hn_rec_first)}
 /-- add_impl: the rollback closure undoes all three recorded sets (three `remove` calls) and is invoked on
-both failure paths -/
-def addRollbackCoversAll : Bool := {b(add_rb_all and add_rb_removes and add_rb_calls)}
+both failure paths, with no exit between the index phase and its first invocation -/
+def addRollbackCoversAll : Bool := {b(add_rb_all and add_rb_calls)}
 /-- add_impl: document object after the index phase, id bitmap after the document object -/
 def addDocAfterIndexes : Bool := {b(add_doc_after_index)}
 def addIdsAfterDoc : Bool := {b(add_ids_after_doc)}
@@ -159,6 +389,9 @@ def updRollbackCoversAll : Bool := {b(upd_rb_all)}
 def updRollbackSwaps : Bool := {b(upd_rb_swaps)}
 def updRollbackRemovesNewFirst : Bool := {b(upd_rb_remove_new_before_reinsert)}
 def updPoisonOnFailedRestore : Bool := {b(upd_poison_on_failed_restore)}
+/-- update_impl: no exit (`return`, `?`) between the index phase and the first invocation of the rollback
+closure: every failure of the index phase is rolled back -/
+def updRollbackOnEveryFailure : Bool := {b(upd_rb_unconditional)}
 def updDocAfterIndexes : Bool := {b(upd_doc_after_index)}
 
 /-- remove_impl: index entries, then the document object, then the id bitmap -/
@@ -189,7 +422,7 @@ theorem gen_add_shape : (addValidateBeforeAlloc && addBtRecordedFirst && addTxRe
     addRollbackCoversAll && addDocAfterIndexes && addIdsAfterDoc) = true := by decide
 theorem gen_update_shape : (updValidateBeforeIndexes && updBtRecordedAfter && updTxRemoveFirst && updOnlyTouched &&
     updRollbackCoversAll && updRollbackSwaps && updRollbackRemovesNewFirst && updPoisonOnFailedRestore &&
-    updDocAfterIndexes) = true := by decide
+    updRollbackOnEveryFailure && updDocAfterIndexes) = true := by decide
 theorem gen_remove_shape : (remIndexesBeforeDelete && remDeleteBeforeIds) = true := by decide
 theorem gen_btree_shape : (wrapperEqualIsNoop && wrapperInsertBeforeRemove && batchInsertBeforeRemove &&
     insertArrayPrecheck && insertArrayRecheckInEntry && insertCheckInEntry) = true := by decide
